@@ -523,7 +523,14 @@ def check_struct_block(ctx):
             elif keyed is None:
                 # the (key, run) pairs come from a helper: every return of it must be runs keyed on
                 # the endianness or singletons with their own endianness
+                if isinstance(src, ast.Name):
+                    binds_ = [n_.value for n_ in ast.walk(ff.node) if isinstance(n_, ast.Assign) and len(n_.targets) == 1 and isinstance(n_.targets[0], ast.Name) and n_.targets[0].id == src.id]
+                    if len(binds_) == 1:
+                        src = binds_[0]
                 v, why = helper_runs_verdict(repo, cg, src)
+                j_ = joins_run_without_same_endianness(ff.node) if v is None else None
+                if j_ is not None:
+                    v, why = False, 'runs that a field joins under (%s): not only when it has the endianness of that run' % j_
                 if v is None and isinstance(src, ast.Call) and isinstance(src.func, ast.Attribute) and src.func.attr in ('items', 'values') and isinstance(src.func.value, ast.Name):
                     # the runs are the values of a mapping filled member by member: all the members with
                     # one key end in one group wherever they stand -- not runs of neighbours
@@ -680,6 +687,27 @@ def _same_sequence(v, name):
     return False
 
 
+def joins_run_without_same_endianness(node):
+    """runs built member by member: a member joins the open run (``runs[-1]...append(member)``) only
+    when it has that run's endianness.  Returns the text of a joining test that lets members of
+    another endianness in, else None"""
+    def needs_same_endianness(t):
+        if isinstance(t, ast.Compare) and len(t.ops) == 1 and isinstance(t.ops[0], (ast.Eq, ast.Is)):
+            return any(canon(x).endswith('.is_bigendian') for x in (t.left, t.comparators[0]))
+        if isinstance(t, ast.BoolOp) and isinstance(t.op, ast.And):
+            return any(needs_same_endianness(v) for v in t.values)
+        if isinstance(t, ast.BoolOp) and isinstance(t.op, ast.Or):
+            return all(needs_same_endianness(v) for v in t.values)
+        return False
+    for n in ast.walk(node):
+        if isinstance(n, ast.If):
+            joins = [c for b in n.body for c in ast.walk(b) if isinstance(c, ast.Call) and isinstance(c.func, ast.Attribute) and c.func.attr in ('append', 'extend')
+                     and isinstance(c.func.value, ast.Subscript) and '[(-1)]' in canon(c.func.value)]
+            if joins and any('is_bigendian' in canon(x) for x in ast.walk(n.test) if isinstance(x, ast.Attribute)) and not needs_same_endianness(n.test):
+                return canon(n.test)[:90]
+    return None
+
+
 def helper_runs_verdict(repo, cg, src):
     """src = self.<helper>(group): every return of the helper is a list of (endianness, run) pairs;
     -> (True, text) when each return is visibly runs of a groupby keyed on is_bigendian or singletons
@@ -692,6 +720,9 @@ def helper_runs_verdict(repo, cg, src):
     rets = [n for n in ast.walk(h.node) if isinstance(n, ast.Return)]
     if not rets:
         return None, '%s has no return' % h.node.name
+    j = joins_run_without_same_endianness(h.node)
+    if j is not None:
+        return False, '%s, where a field joins the open run under (%s): not only when it has the endianness of that run' % (h.node.name, j)
     seen = []
     for r in rets:
         v = r.value
